@@ -58,6 +58,27 @@ Definition dup_check (R : list key) (seen : list binding) (b : binding) : bool *
   | ro => if existsb (fun c => sub c ro) seen then (true, seen) else (false, seen ++ [ro])
   end.
 
+(* cache_data.SeenSet line by line, and _is_duplicate_output_ over it (the translator pins the three bodies: Generated.
+   dedup_site_as_modelled).  [dup_check] above is what is left of them when the set is only ever asked through
+   _is_duplicate_output_ - never about an empty assignment, so `all_seen` stays false: Dedup_Facts.is_duplicate_dup_check *)
+Record seenset := { ss_seen : list binding; ss_all : bool }.
+Definition ss_add (s : seenset) (a : binding) : seenset :=
+  if ss_all s then s else {| ss_seen := ss_seen s ++ [a]; ss_all := match a with [] => true | _ => false end |}.
+Definition ss_check (s : seenset) (a : binding) : bool * seenset :=
+  if ss_all s then (true, s)
+  else match a with
+       | [] => (false, {| ss_seen := ss_seen s ++ [a]; ss_all := true |})
+       | _ => (existsb (fun c => sub c a) (ss_seen s), s)
+       end.
+Definition is_duplicate (R : list key) (s : seenset) (b : binding) : bool * seenset :=
+  match R with
+  | [] => (false, s)                                   (* if not required_vars *)
+  | _ => match restr R b with
+         | [] => (false, s)                            (* if not required_output *)
+         | ro => let (d, s1) := ss_check s ro in if d then (true, s1) else (false, ss_add s1 ro)
+         end
+  end.
+
 Inductive dst := DL | DN (sT sF : list binding) (l r : dst).
 Definition d_sT (s : dst) := match s with DN a _ _ _ => a | DL => [] end.
 Definition d_sF (s : dst) := match s with DN _ a _ _ => a | DL => [] end.
